@@ -383,6 +383,36 @@ fn lookup_fn1(backend: &str, name: &str) -> Option<Fn1> {
     None
 }
 
+/// C16 in this float configuration: float RGB -> HSL -> RGB on grids (to_hsl goes through the configuration's
+/// rem_euclid, to_rgb through its floor/abs): no panic, channels in [0,1], round trip within the stated 1e-4
+/// (micromath: 2e-3, the accuracy class of that backend), grays keep s = 0 and their lightness.
+fn color_case(c: [f32; 3], r: &mut Report) {
+    use re::math::color::{hsl, rgb};
+    r.eval();
+    let case = || obj! {"kind" => "color", "c" => J::Arr(c.iter().map(|x| fbits(*x)).collect())};
+    let key = |cl: &str| format!("{cl}|{CFG_NAME}|{:.4},{:.4},{:.4}", c[0], c[1], c[2]);
+    let h = match caught(|| rgb(c[0], c[1], c[2]).to_hsl().0) { Ok(h) => h, Err(p) => { r.violation(key("f32-to_hsl-panic"), format!("[{CFG_NAME}] rgb{c:?}.to_hsl() panicked: {p}"), case()); return; } };
+    if h.iter().any(|x| !(*x >= 0.0 && *x <= 1.0)) { r.violation(key("f32-hsl-out-of-range"), format!("[{CFG_NAME}] rgb{c:?}.to_hsl() = {h:?} out of [0,1]"), case()); return; }
+    if c[0] == c[1] && c[1] == c[2] && (h[1] != 0.0 || (h[2] - c[0]).abs() > 1e-6) { r.violation(key("f32-gray"), format!("[{CFG_NAME}] gray {} -> hsl{h:?}", c[0]), case()); return; }
+    let back = match caught(|| hsl(h[0], h[1], h[2]).to_rgb().0) { Ok(b) => b, Err(p) => { r.violation(key("f32-roundtrip-panic"), format!("[{CFG_NAME}] hsl{h:?}.to_rgb() panicked: {p}"), case()); return; } };
+    if back.iter().any(|x| !(*x >= 0.0 && *x <= 1.0)) { r.violation(key("f32-hsl-rgb-out-of-range"), format!("[{CFG_NAME}] hsl{h:?}.to_rgb() = {back:?} out of [0,1]"), case()); return; }
+    let err = (0..3).map(|i| (back[i] - c[i]).abs()).fold(0.0f32, f32::max);
+    let tol = if cfg!(feature = "cfg_mm") { 2e-3 } else { 1e-4 };
+    if !(err <= tol) { r.violation(key("f32-rgb-roundtrip"), format!("[{CFG_NAME}] rgb{c:?} -> hsl{h:?} -> rgb{back:?}: error {err} > {tol}"), case()); } else if !(c[0] == c[1] && c[1] == c[2]) { r.nontrivial(); }
+}
+
+fn run_color(cfg: &Cfg) -> ! {
+    let mut rep = Report::new();
+    rep.set("configuration", CFG_NAME);
+    let n: u64 = if cfg.quick() { 41 } else { 101 };
+    rep.merge(par_range(cfg, n * n * n, |i, r| { let g = |k: u64| k as f32 / (n - 1) as f32; color_case([g(i % n), g(i / n % n), g(i / n / n)], r); }));
+    let d: u64 = if cfg.quick() { 51 } else { 101 };
+    rep.merge(par_range(cfg, d * d * d, |i, r| { let g = |k: u64| (k as f32 * 0.0137 + 0.003).min(1.0); color_case([g(i % d), g(i / d % d), g(i / d / d)], r); }));
+    rep.sample(0, || obj! {"configuration" => CFG_NAME, "rgb" => vec![1.0f32, 0.0, 0.5]});
+    let rule = format!("configuration {CFG_NAME}: float RGB grids (k/{} and an irregular 0.0137-step grid, full cubes) -> to_hsl -> to_rgb through this configuration's float backend: no panic, every channel in [0,1], round trip within the stated tolerance, grays with s = 0. non-trivial = chromatic colour round-tripped.", n - 1);
+    rep.finish(cfg, "exploration", &rule, &["round-trip tolerance 1e-4 as stated (2e-3 under micromath, the accuracy class of that backend per C20)"]);
+}
+
 fn replay_case(case: &J, r: &mut Report) {
     let s = |k: &str| case.get(k).and_then(|j| j.as_str()).unwrap_or("").to_string();
     let fb = |k: &str| parse_fbits(case.get(k).unwrap()).unwrap();
@@ -390,6 +420,7 @@ fn replay_case(case: &J, r: &mut Report) {
     match s("kind").as_str() {
         "fn1" => match lookup_fn1(&s("backend"), &s("name")) { Some(f) => check1(&s("backend"), &f, fb("x"), r, None), None => { eprintln!("MACHINERY-ERROR backend {} not in this configuration", s("backend")); std::process::exit(2) } },
         "rem" => { let f: fn(f32, f32) -> f32 = match s("backend").as_str() { "fallback" => float::fallback::rem_euclid, #[cfg(feature = "cfg_mm")] "mm" => float::mm::rem_euclid, #[cfg(feature = "cfg_libm")] "libm" => float::libm::rem_euclid, _ => std::process::exit(2) }; check_rem(&s("backend"), f, fb("x"), fb("m"), r) }
+        "color" => { let a = case.get("c").unwrap().as_arr().unwrap(); color_case([parse_fbits(&a[0]).unwrap(), parse_fbits(&a[1]).unwrap(), parse_fbits(&a[2]).unwrap()], r) }
         "tri" => { let v: Vec<i32> = case.get("t").unwrap().as_arr().unwrap().iter().map(|x| x.as_i64().unwrap() as i32).collect(); tri_cover([(v[0], v[1]), (v[2], v[3]), (v[4], v[5])], r) }
         "tex" => { let mut rr = Report::new(); tex_repeat(&mut rr); let want = format!("u={}|v={}", fb("u"), fb("v")); for (k, v) in rr.viols { if k.contains(&want) { r.violation(k, v.what, v.case); } } }
         #[cfg(not(feature = "cfg_none"))]
@@ -408,8 +439,9 @@ fn replay_case(case: &J, r: &mut Report) {
 
 fn main() {
     if std::env::var("VERIF_DEBUG_PANIC").is_err() { std::panic::set_hook(Box::new(|_| {})); }
-    let cfg = Cfg::from_args(|_| "C20".into());
+    let cfg = Cfg::from_args(|s| if s.starts_with("color") { "C16".into() } else { "C20".into() });
     if cfg.replay.is_some() { replay_main(&cfg, replay_case); }
+    if cfg.part.starts_with("color") { run_color(&cfg); }
     let mut rep = Report::new();
     rep.set("configuration", CFG_NAME);
     // module sweeps: each backend module is swept in the configuration that selects it
